@@ -343,7 +343,9 @@ def norm_tree(t, rn, named):
     if t[0] == 'T':
         typ = PFX.sub(r'\1', t[1])
         typ = rn.get('t:' + typ, typ)
-        return ('T', typ if typ in named else None, t[2])
+        # a literal whose canonical name ("+" -> PLUS) is taken by a terminal of the flat grammar is called PLUS again
+        # once that terminal lives in a module as m1__PLUS: the value tells the two apart
+        return ('T', typ if typ in named and named[typ].fullmatch(t[2]) else None, t[2])
     if t[0] == 'N':
         name = PFX.sub(r'\1', t[1]) if t[1] != '_ambig' else t[1]
         return ('N', rn.get('r:' + name, name), tuple(norm_tree(c, rn, named) for c in t[2]))
@@ -372,7 +374,7 @@ def run_case(ctx, sp, texts, tmp, only_input=None):
     back = {}
     for k, v in sp['rename'].items():
         back[k[0] + ':' + v] = k[2:]
-    named = {t['name'] for t in flat['terms']}
+    named = {t['name']: re.compile(re.escape(t['pat'][1]) if t['pat'][0] == 's' else t['pat'][1], re.I if 'i' in t['pat'][2] else 0) for t in flat['terms']}
     feats = sorted(sp['feats'])
     nontriv = 'transitive-dependency' in sp['feats'] and 'same-named-local-definition' in sp['feats']
     imp = dict(source_path=os.path.join(tmp, 'main.lark')) if sp['relative'] else dict(import_paths=[tmp])
